@@ -11,7 +11,7 @@
      port   1..5 digits, optional
      scheme omitted (udp) or one of scheme_table: udp tcp tls https http h3 quic doq tcp+pipeline tls+pipeline
      path   with an explicit scheme: nothing or anything starting with '/', '?' or '#' *)
-From Mos Require Import Base.Prelude Net.Addr Net.TlsCfg Net.AddrProofs Net.UpCfg Net.UpCfgProofs Net.UpRouter Net.UpRouterProofs Net.UpHistory Net.UpHistoryProofs.
+From Mos Require Import Base.Prelude Net.Addr Net.TlsCfg Net.AddrProofs Net.UpCfg Net.UpCfgProofs Net.UpRouter Net.UpRouterProofs Net.UpHistory Net.UpHistoryProofs Net.SockOpts Net.SockOptsProofs Net.DohStatus Net.DohStatusProofs.
 From Coq Require Import String Ascii.
 
 Definition s2l (s : string) : list N := map N_of_ascii (list_ascii_of_string s).
@@ -664,3 +664,68 @@ Theorem C17_resolve_once_refuted :
    rs_case rs_w_url [] rs_w_name (fun k => match k with O => [] | _ => [rs_w_a1] end) 1 = Some [s2l "127.0.0.1:853"]).
 Proof. exact resolve_once_refuted. Qed.
 Print Assumptions C17_resolve_once_refuted.
+
+(* --- socket options reach every socket (round 8) ---------------------------------------------------------- *)
+(* controlSocket: EVERY configured option (so_reuseport, so_rcvbuf, so_sndbuf, so_mark, so_bindtodevice) is applied
+   to EVERY socket of EVERY ip network the Control callback is called with (tcp4 tcp6 udp4 udp6); TCP_USER_TIMEOUT
+   (5000 ms from listen() / initUpstream) is meaningful for tcp only: applied to tcp4 / tcp6, never to udp. *)
+Theorem C17_sockopts_all_networks : forall o n,
+  ska_reuseport (sko_control o n) = sko_reuseport o /\
+  (sko_rcvbuf o <> 0%N -> ska_rcvbuf (sko_control o n) = Some (sko_rcvbuf o)) /\
+  (sko_sndbuf o <> 0%N -> ska_sndbuf (sko_control o n) = Some (sko_sndbuf o)) /\
+  (sko_mark o <> 0%N -> ska_mark (sko_control o n) = Some (sko_mark o)) /\
+  (sko_dev o <> [] -> ska_dev (sko_control o n) = Some (sko_dev o)) /\
+  (sko_utimeout o <> 0%N -> sko_is_tcp n = true -> ska_utimeout (sko_control o n) = Some (sko_utimeout o)) /\
+  (sko_is_tcp n = false -> ska_utimeout (sko_control o n) = None).
+Proof. exact sockopts_all_networks. Qed.
+Print Assumptions C17_sockopts_all_networks.
+
+Theorem C17_sockopts_nothing_else : forall o n,
+  (sko_rcvbuf o = 0%N -> ska_rcvbuf (sko_control o n) = None) /\
+  (sko_sndbuf o = 0%N -> ska_sndbuf (sko_control o n) = None) /\
+  (sko_mark o = 0%N -> ska_mark (sko_control o n) = None) /\
+  (sko_dev o = [] -> ska_dev (sko_control o n) = None) /\
+  (sko_utimeout o = 0%N -> ska_utimeout (sko_control o n) = None).
+Proof. exact sockopts_nothing_else. Qed.
+Print Assumptions C17_sockopts_nothing_else.
+
+(* REFUTED for a white list of network names that misses "tcp4": IPv4 TCP sockets lose so_mark and so_bindtodevice *)
+Theorem C17_sockopts_whitelist_refuted :
+  ska_mark (sko_control_whitelist sko_w SkoTcp4) = None /\ ska_dev (sko_control_whitelist sko_w SkoTcp4) = None /\
+  ska_mark (sko_control sko_w SkoTcp4) = Some 7%N /\ ska_dev (sko_control sko_w SkoTcp4) = Some (s2l "lo") /\
+  sko_control_whitelist sko_w SkoTcp6 = sko_control sko_w SkoTcp6 /\
+  sko_control_whitelist sko_w SkoUdp4 = sko_control sko_w SkoUdp4.
+Proof. exact sockopts_whitelist_refuted. Qed.
+Print Assumptions C17_sockopts_whitelist_refuted.
+
+(* --- a DoH exchange is ONE request (round 8) -------------------------------------------------------------- *)
+(* For every world of servers and every URL: the exchange requests the configured URL and nothing else, and uses
+   the answer iff its status is 200; any other status — a 3xx with a Location in particular — fails the exchange. *)
+Theorem C17_doh_one_request_per_exchange : forall w url,
+  fst (doh_exchange w url) = [url] /\
+  snd (doh_exchange w url) = (if N.eqb (da_status (w url)) 200 then Ok (da_body (w url)) else Err EOther) /\
+  (doh_is_redirect (da_status (w url)) = true -> is_ok (snd (doh_exchange w url)) = false).
+Proof.
+  intros w url. destruct (doh_one_request w url) as [A B]. split; [exact A|]. split; [exact B|].
+  exact (doh_redirect_fails w url).
+Qed.
+Print Assumptions C17_doh_one_request_per_exchange.
+
+(* REFUTED for an exchange that follows redirects (http.Client): "https://a/q" answered 302 -> "http://b/q": a
+   second request goes to the CLEARTEXT URL of another authority and its body is taken as the answer *)
+Theorem C17_doh_follow_redirects_refuted :
+  doh_exchange_follow 10 doh_w_world doh_w_url = ([doh_w_url; doh_w_loc], Ok [42%N]) /\
+  doh_exchange doh_w_world doh_w_url = ([doh_w_url], Err EOther).
+Proof. exact doh_follow_refuted. Qed.
+Print Assumptions C17_doh_follow_redirects_refuted.
+
+(* the stream sockets a router opens itself — listen() and the connections of its upstreams (initUpstream) — carry
+   TCP_USER_TIMEOUT = 5000 ms in addition to every configured option *)
+Theorem C17_router_sockets_user_timeout : forall o n,
+  sko_is_tcp n = true ->
+  ska_utimeout (sko_router_control o n) = Some 5000%N /\
+  ska_mark (sko_router_control o n) = ska_mark (sko_control o n) /\
+  ska_dev (sko_router_control o n) = ska_dev (sko_control o n) /\
+  ska_reuseport (sko_router_control o n) = sko_reuseport o.
+Proof. exact router_sockets. Qed.
+Print Assumptions C17_router_sockets_user_timeout.
